@@ -762,7 +762,7 @@ impl C14 {
         if rng.flip() {
             xs.set_recording_enabled(true);
         }
-        let _ = xs.eval(": imm-ticks 5 0 do \"x\" print loop ; immediate");
+        let _ = xs.eval(": imm-ticks immediate 5 0 do \"x\" print loop ;");
         let _ = xs.read_stdout();
         let n = *rng.pick(&[0usize, 1, 2, 3, 7, 20, 50, 120, 400]);
         let _ = xs.set_insn_limit(Some(n));
